@@ -9,6 +9,39 @@ def gen_ctrl(r, tier, n_quick=600, n_thorough=20000, **kw):
     return streams.gen_world(r, n, **kw)
 
 
+def gen_long_quiet(r, tier):
+    """a neverStop fan that stalls once or a few times early on and then runs for hundreds of cycles without any stall,
+    with low and sweeping curve values: limits and the raised minimum must hold for the whole run (seed C01f walked the
+    raise back after 100 quiet cycles, and further)"""
+    ops = []
+    ident = streams.int_map_tok({i: i for i in range(256)})
+    for _ in range(8 if tier == "quick" else 120):
+        lo = r.range(20, 120)
+        hi = r.range(lo + 20, 255)
+        ops.append("#case long-quiet")
+        ops.append(f"w.new kind=hwmon ns=1 win={r.pick([1, 2, 5])} cmin={lo} minp={lo} maxp={hi} startp={lo} avg=x408f400000000000 map={ident} "
+                   f"loop=direct m=- resp=id pwm={lo} rpm=900 origmode=2 origpwm=0")
+        now = 1000
+        curve = 0
+        for ep in range(r.range(1, 3)):           # stall episodes
+            ops.append("w.dev rpm=0")
+            for _ in range(r.range(6, 30)):
+                ops.append("w.poll")
+                now += 200_000_000
+                ops.append(f"w.cycle curve={curve} now={now}")
+            ops.append("w.dev rpm=900")
+            for _ in range(12):
+                ops.append("w.poll")
+        for k in range(700 if tier == "quick" else 2500):   # the long quiet phase
+            if k % 97 == 0:
+                curve = r.pick([0, 0, 0, r.range(0, 40), r.range(0, 255)])
+            now += 200_000_000
+            ops.append(f"w.cycle curve={curve} now={now}")
+            if k % 5 == 0:
+                ops.append("w.poll")
+    return ops
+
+
 class CycleView:
     """one executed w.cycle / w.calc seen from the implementation's output"""
     __slots__ = ("idx", "op", "pre", "post", "res", "log", "requested")
